@@ -8,6 +8,7 @@ from ..engine import flow
 from ..engine.mutate import Mutant, Variant, in_function, replace_once
 from ..engine.runner import Rule
 from ..engine.source import AnalysisError
+from ..engine.sqlfront import all_where_clauses, split_conjuncts
 from .common import callee_name, calls_in
 
 EXPLANATION = (
@@ -100,6 +101,21 @@ def rule_resources(ctx):
     ctx.check(need <= reads, "scheduler.SELECT_NEXT_STEP", "reads claims of other steps, availability and states", f"read set lacks {sorted(need - reads)}", "read set ok")
     flat = _norm(res)
     ctx.check(f"s2.state = {SS.RUNNING.value}" in flat, "scheduler.RESOURCE_UNAVAILABLE", "subtracts the units of RUNNING steps", "the units held by running steps are not subtracted (or of steps in another state)", "RUNNING")
+    # the subtraction ranges over every RUNNING step: its sub-select reads nothing but claims and step states and
+    # has no conjunct besides the resource name and the state (a command keeps running, and keeps its resource, when
+    # its step is detached or otherwise reclassified)
+    ms = re.search(r"COALESCE\(\( (SELECT SUM\(r2\.units\).*?) \), 0\)", flat)
+    if not ms:
+        raise AnalysisError("cannot isolate the SUM over running steps in RESOURCE_UNAVAILABLE")
+    sub = ms.group(1)
+    sub_reads = {(e[1], e[2]) for e in ctx.cat.effects(sub.replace("req.name", "'x'")) if e[0] == "READ"}
+    allowed = {("step_resource", "units"), ("step_resource", "name"), ("step_resource", "node"), ("step", "state"), ("step", "node")}
+    ctx.check(sub_reads <= allowed, "scheduler.RESOURCE_UNAVAILABLE", "units in use are summed over all RUNNING steps (reads only claims and states)",
+              f"the sum of units in use also consults {sorted(f'{t}.{c}' for t, c in sub_reads - allowed)}: a step whose command is still running is left out of the sum and its resource is handed out twice", "read set ok")
+    wh = all_where_clauses(sub)
+    conj = sorted(re.sub(r"\s*\.\s*", ".", _norm(c)) for c in split_conjuncts(wh[0])) if wh else []
+    ctx.check(len(wh) == 1 and conj == sorted(["r2.name = req.name", f"s2.state = {SS.RUNNING.value}"]), "scheduler.RESOURCE_UNAVAILABLE", "the sum is filtered by resource name and RUNNING state only",
+              f"conjuncts of the sum: {conj}", "two conjuncts")
     m = re.search(r"AND \( (avail\.name IS NULL OR .*< req\.units) \)$", flat)
     if not m:
         raise AnalysisError("cannot isolate the resource arm of RESOURCE_UNAVAILABLE")
@@ -124,6 +140,18 @@ def rule_resources(ctx):
     ins = ctx.prog.fold("scheduler", "INSERT_AVAILABLE_RESOURCE")
     w = {s.site.func.fq for s in ctx.sql.writers_of("available_resource")}
     ctx.check(w == {"scheduler.Scheduler.initialize"} and "INSERT INTO available_resource" in ins, "available_resource", "written only at scheduler initialisation", f"writers {sorted(w)}", "single writer")
+    # a recycled step carries the claims of the *current* declaration, whatever its state
+    ar = ctx.prog.func("step.Step.after_recycle")
+    npaths = 0
+    for tr, st in flow.paths_of(ar):
+        if st == "raise":
+            continue
+        npaths += 1
+        calls = [e[2] for e in tr if e[0] == "call" and e[1] == "self.set_resources"]
+        ok = len(calls) == 1 and len(calls[0].args) == 1 and ast.unparse(calls[0].args[0]) == "resources"
+        ctx.check(ok, ar.fq, "every path of after_recycle stores the declared resources", "a recycled step keeps the resource claims of its previous declaration on some path (state-dependent): the dispatcher accounts for the wrong number of units", "set_resources(resources) on all paths", where=ctx.where_of(ar))
+    if npaths == 0:
+        raise AnalysisError("after_recycle has no normal path")
     w = {s.site.func.fq for s in ctx.sql.writers_of("step_resource")}
     ctx.check(w == {"step.Step.set_resources"}, "step_resource", "claims are written only by Step.set_resources", f"writers {sorted(w)}", "single writer")
 
@@ -159,6 +187,8 @@ RULES = [
 ]
 
 MUTANTS = [
+    Mutant("running-sum-attached-only", "scheduler.py", replace_once("              JOIN step AS s2 ON s2.node = r2.node\n              WHERE r2.name = req.name\n                AND s2.state = {StepState.RUNNING.value}\n", "              JOIN step AS s2 ON s2.node = r2.node\n              JOIN node AS n2 ON n2.i = r2.node\n              WHERE r2.name = req.name\n                AND s2.state = {StepState.RUNNING.value}\n                AND NOT n2.detached\n"), ("R-C12-3",)),
+    Mutant("recycle-keeps-claims", "step.py", in_function("Step.after_recycle", replace_once("            self.graph.mark_step_pending(self)\n        self.set_resources(resources)\n", "            self.graph.mark_step_pending(self)\n            self.set_resources(resources)\n")), ("R-C12-3",)),
     Mutant("slot-le", "builder.py", in_function("Builder.job_loop", lambda s: s.replace("            if len(self.running_tasks) < self.njob:\n                job = await self.scheduler.pop_next_job()", "            if len(self.running_tasks) <= self.njob:\n                job = await self.scheduler.pop_next_job()") if "job = await self.scheduler.pop_next_job()" in s else None), ("R-C12-1",)),
     Mutant("start-outside-loop", "builder.py", in_function("Builder.run_promoted_hash_jobs", replace_once("                await self.executor.run_hash_job(job)\n", "                self.start_hash_task(job)\n")), ("R-C12-1",)),
     Mutant("skip-runs-command", "executor.py", in_function("Executor.try_skip_job", lambda s: s.replace("            await self._noskip(run, step_hash, new_hash)\n            await self._reset_step_to_pending(step)\n            # The output files must have been changed externally.", "            await self._noskip(run, step_hash, new_hash)\n            await self._run_command(run)\n            await self._reset_step_to_pending(step)\n            # The output files must have been changed externally.") if "# The output files must have been changed externally." in s else None), ("R-C12-2", "R-C12-4")),
